@@ -9,6 +9,7 @@ import misc_checks
 CHECKS = {
     "C01": (conn_checks.c01, conn_checks.replay_framing),
     "C02": (write_checks.c02, write_checks.replay_writing),
+    "C03": (envelope_checks.c03, envelope_checks.replay_case),
     "C04": (envelope_checks.c04, envelope_checks.replay_case),
     "C05": (envelope_checks.c05, envelope_checks.replay_case),
     "C06": (chain_checks.c06, chain_checks.replay_chain),
